@@ -1483,3 +1483,20 @@ Proof.
     destruct (Hstep _ IH) as [kn [mn [E C]]]. rewrite E. cbn [fst]. now rewrite C. }
   split; [exact H|]. destruct (Hstep _ H) as [kn [mn [E C]]]. now rewrite E.
 Qed.
+
+(* a remote unit that never started and is Failed (time to live over, cancelled locally, failed at an
+   earlier restart): every restart marks it Failed again — state and recorded size stay what they
+   were (only the free-text detail, which the model does not carry, is rewritten) *)
+Theorem failed_unstarted_remote_fixed_thm : forall types x s,
+  uf_dir x = true -> uf_status x = Some (encode s) ->
+  kind_of types (s_wtype s) = KRemote -> started s = false ->
+  s_state s = S_FAILED -> s_size s = stdout_size x ->
+  snd (recover types x) = mkView true true s false /\
+  uf_status (fst (recover types x)) = Some (encode s) /\ core (fst (recover types x)) = core x.
+Proof.
+  intros types x s Hd Hs Hk Hst Hf Hz. rewrite (recover_intact types x s Hd Hs), Hk, Hst.
+  assert (E : failed_rec x s = s).
+  { unfold failed_rec. rewrite <- Hf, <- Hz. now destruct s. }
+  rewrite E. cbn [fst snd]. split; [reflexivity|]. split; [reflexivity|].
+  unfold core, with_status. cbn [uf_dir uf_status uf_stdin uf_stdout]. now rewrite Hs.
+Qed.
